@@ -522,6 +522,10 @@ func (Engine) Run(c *choice.Src, o engine.Opt) (out engine.Out) {
 					oo = op{kind: "uintn", a: 1 + c.Choose(1000, "n")}
 					if c.Bool(1, 4, "bign") {
 						oo.a = 1<<31 + c.Choose(1<<30, "nbig")
+					} else if c.Bool(1, 3, "pow2n") {
+						// bounds at the bit-length and byte-length boundaries: 2^k - 1, 2^k, 2^k + 1
+						k := 1 + c.Choose(62, "pow2.k")
+						oo.a = (1 << k) + c.Choose(3, "pow2.d") - 1
 					}
 				case 1:
 					oo = op{kind: "perm", a: c.Range(0, 20, "n")}
